@@ -33,14 +33,14 @@ def run(chk) -> None:
     )
     chk.trusted = ["CPython ast", "functools.cached_property writes only its own slot", "external calls (pulp, graphviz, re) do not mutate BpSeq state"]
     chk.assumptions = ["callers outside the library do not mutate returned containers"]
-    chk.robust |= {"receiver-write", "cache-introspection", "pk-class", "isolated-select", "isolated-unpair", "isolated-copy", "foreign-write", "derived-sequence", "history-independent", "derived-consistent", "isolated-result"}
+    chk.robust |= {"receiver-write", "cache-introspection", "pk-class", "isolated-select", "isolated-unpair", "isolated-copy", "foreign-write", "derived-sequence", "history-independent", "derived-consistent", "isolated-result", "derived-structure"}
     check_effects(chk)
     # the removal rules, the "sequence unchanged" clause and call histories: evaluated (checks/c01e.py); pinned forms as the fallback
     from checks import c01e
 
     if not c01.fact_first(chk, "without-pseudoknots", repo.func(MOD, "BpSeq.without_pseudoknots").where, c01e.pseudoknots_fact(chk)):
         check_pseudoknots_pinned(chk)
-    if not c01.fact_first(chk, "from-dotbracket", repo.func(MOD, "BpSeq.from_dotbracket").where, c01e.from_dotbracket_fact(chk, "derived-sequence")):
+    if not c01.fact_first(chk, "from-dotbracket", repo.func(MOD, "BpSeq.from_dotbracket").where, c01e.from_dotbracket_fact(chk, "derived-structure")):
         pass  # C01's L8 reads the pinned form
     if not c01.fact_first(chk, "without-isolated", repo.func(MOD, "BpSeq.without_isolated").where, c01e.isolated_fact(chk)):
         check_isolated_pinned(chk)
